@@ -39,6 +39,14 @@ class Subgrid:
                 good.append((e, r, rows, row))
             else:
                 self.aliasing_returns.append((e, src(r)[:100]))
+        if not good:
+            synth = self._fill_and_copy(f, w)
+            if synth is not None:
+                e0, call = synth
+                rows = call.args[0]
+                good.append((e0, call, rows, self._row(rows.elt)))
+                self.aliasing_returns = []
+                self.fill_and_copy = True
         self.returns_self = bool(self.aliasing_returns)
         if not good:
             if self.aliasing_returns:
@@ -97,7 +105,259 @@ class Subgrid:
             test = ast.IfExp(gexpr, m_['test'], test)
         self.test = test if self.pad_vals else None
         self.n_returns = len(models)
+        if getattr(self, 'fill_and_copy', False):
+            self.n_returns = 2      # the test mentions the area bounds: enumerate small areas
         self.cond = formula_of(self.test) if self.test is not None else None
+
+    # ------------------------------------------------------------------ fill and copy
+    def _fill_and_copy(self, f, w):
+        """third spelling of the slice: allocate an all-padding grid of the area's shape, then
+        copy the cells of a box R of world positions into it, shifted by the area's origin.
+        Returns (return event, synthetic `Grid([[cell if <in R> else pad for x ..] for y ..])`)
+        -- the comprehension this code is equivalent to -- or None when the function is not
+        written this way.  Established here, structurally: every return hands out the same
+        freshly filled storage; the only store into it is the copy; source and target of the
+        copy differ by the area's origin; R is a box whose bounds are expressions of the area
+        and the grid, and the copy runs under the condition extracted as its guard.  Two copy
+        loops are understood: per position (`for p in R.positions(): G[p - origin] = self[p]`)
+        and per row with slices (`for y, row in enumerate(self.objects[ylo:yhi + 1], ylo):
+        G[y - ymin][xlo - xmin:xhi - xmin + 1] = row[xlo:xhi + 1]`)."""
+        import copy
+        from .guards import dims_of
+        from .inline import _SubstNames, pure_body_expr
+        ap = self.area_param
+        rets = [e for e in w.events if e.kind == 'return' and e.value is not None]
+        gs = set()
+        for e in rets:
+            v = e.value
+            if isinstance(v, ast.Call) and src(v.func) == 'Grid' and len(v.args) == 1 and \
+                    not v.keywords:
+                v = v.args[0]
+            if not isinstance(v, ast.Name):
+                return None
+            gs.add((v.id, isinstance(e.value, ast.Call)))
+        if len(gs) != 1:
+            return None
+        g, wrapped = next(iter(gs))
+        d = w.sole_binding(g)
+        if d is None or d[0] != 'value':
+            return None
+        fill = w.expand(d[1])
+        pad = None
+        if not wrapped and isinstance(fill, ast.Call) and \
+                src(fill.func) == 'Grid.from_shape' and len(fill.args) == 1:
+            kw = {k.arg: k.value for k in fill.keywords}
+            dims = dims_of(fill.args[0])
+            if dims is None and isinstance(fill.args[0], ast.Attribute) and \
+                    fill.args[0].attr == 'shape' and src(fill.args[0].value) == ap:
+                dims = [f'{ap}.height', f'{ap}.width']
+            if dims != [f'{ap}.height', f'{ap}.width'] or set(kw) != {'factory'}:
+                return None
+            fs = self.index.func(GRID, 'Grid.from_shape')
+            ok = any(isinstance(s_, ast.Assign) and 'factory()' in src(s_.value) and
+                     'range(width)' in src(s_.value) and 'range(height)' in src(s_.value)
+                     for s_ in ast.walk(fs.node))
+            if not ok:
+                raise AnalysisError('Grid.from_shape is not rows of factory() per cell')
+            pad = ast.Call(kw['factory'], [], [])
+        elif wrapped and isinstance(fill, ast.ListComp) and len(fill.generators) == 1 and \
+                isinstance(fill.elt, ast.ListComp) and len(fill.elt.generators) == 1 and \
+                not fill.generators[0].ifs and not fill.elt.generators[0].ifs:
+            oi, ii = src(fill.generators[0].iter), src(fill.elt.generators[0].iter)
+            if oi not in (f'{ap}.y_coordinates()', f'range({ap}.height)') or \
+                    ii not in (f'{ap}.x_coordinates()', f'range({ap}.width)'):
+                return None
+            pad = fill.elt.elt
+            used = {n.id for n in ast.walk(pad) if isinstance(n, ast.Name)}
+            bound = {n.id for g_ in (fill.generators[0], fill.elt.generators[0])
+                     for n in ast.walk(g_.target) if isinstance(n, ast.Name)}
+            if used & bound or not isinstance(pad, ast.Call):
+                return None
+        else:
+            return None
+        stores = [e for e in w.events if e.kind in ('store', 'augstore', 'attrstore', 'delete')
+                  and src(e.target).split('[')[0].split('.')[0] == g]
+        muts = [e for e in w.events if e.kind == 'call' and isinstance(e.node.func, ast.Attribute)
+                and src(e.node.func.value).split('[')[0] == g]
+        if len(stores) != 1 or stores[0].kind != 'store' or len(stores[0].loops) != 1 or muts:
+            return None
+        st = stores[0]
+        tvar, it = st.loops[0]
+        tgt = st.target
+        empty = None
+        rname = None
+        if isinstance(tvar, ast.Name) and isinstance(it, ast.Call) and \
+                isinstance(it.func, ast.Attribute) and it.func.attr == 'positions' and \
+                not it.args and not it.keywords and isinstance(it.func.value, ast.Name) and \
+                not wrapped:
+            # ---- per position
+            rname = it.func.value.id
+            p = tvar.id
+            if src(st.value) not in (f'self[{p}]', f'self.objects[{p}.y][{p}.x]',
+                                     f'self[{p}.y, {p}.x]'):
+                return None
+            if not (isinstance(tgt, ast.Subscript) and src(tgt.value) == g):
+                return None
+            sl = w.expand(tgt.slice, stop=[p])
+            origin = f'Position({ap}.ymin, {ap}.xmin)'
+            if src(sl) not in (f'{p} - {origin}',
+                               f'Position({p}.y - {ap}.ymin, {p}.x - {ap}.xmin)',
+                               f'({p}.y - {ap}.ymin, {p}.x - {ap}.xmin)'):
+                raise AnalysisError(f'Grid.subgrid copies `self[{p}]` to `{src(sl)}`: not the '
+                                    f'position relative to the area origin (outside the '
+                                    f'grammar)')
+            rd = w.sole_binding(rname)
+            if rd is None or rd[0] != 'value':
+                return None
+            region = rd[1]
+            if isinstance(region, ast.Call) and isinstance(region.func, ast.Attribute) and \
+                    src(region.func) != 'Area':
+                recv = src(region.func.value)
+                am = self.index.cls(GEOMF, 'Area').methods.get(region.func.attr)
+                if am is None or recv not in ('self.area', ap) or region.keywords:
+                    return None
+                body = pure_body_expr(am.node)
+                params = [a_.arg for a_ in am.node.args.args]
+                if body is None or len(params) != 1 + len(region.args):
+                    raise AnalysisError(f'Area.{region.func.attr} is not a pure expression')
+                mp = dict(zip(params, [region.func.value] + list(region.args)))
+                region = _SubstNames(mp).visit(copy.deepcopy(body))
+            region = w.expand(region)
+            if isinstance(region, ast.IfExp):
+                a_none = isinstance(region.body, ast.Constant) and region.body.value is None
+                b_none = isinstance(region.orelse, ast.Constant) and \
+                    region.orelse.value is None
+                if a_none == b_none:
+                    return None
+                empty = region.test if a_none else ast.UnaryOp(ast.Not(), region.test)
+                region = region.orelse if a_none else region.body
+            if not (isinstance(region, ast.Call) and src(region.func) == 'Area'
+                    and len(region.args) == 2 and not region.keywords
+                    and all(isinstance(a_, ast.Tuple) and len(a_.elts) == 2
+                            for a_ in region.args)):
+                return None
+            (ylo, yhi), (xlo, xhi) = (a_.elts for a_ in region.args)
+        elif isinstance(tvar, ast.Tuple) and len(tvar.elts) == 2 and \
+                all(isinstance(t_, ast.Name) for t_ in tvar.elts) and \
+                isinstance(it, ast.Call) and src(it.func) == 'enumerate' and wrapped:
+            # ---- per row, with slices
+            yv, rv = tvar.elts[0].id, tvar.elts[1].id
+            kw = {k.arg: k.value for k in it.keywords}
+            start = kw.get('start', it.args[1] if len(it.args) > 1 else None)
+            rows = it.args[0] if it.args else None
+            if start is None or not (isinstance(rows, ast.Subscript)
+                                     and src(rows.value) == 'self.objects'
+                                     and isinstance(rows.slice, ast.Slice)
+                                     and rows.slice.step is None
+                                     and rows.slice.lower is not None
+                                     and rows.slice.upper is not None):
+                return None
+            ex = lambda n_: w.expand(n_, stop=[yv, rv])
+
+            def sym(e_):
+                return Aff.sym('@' + src(e_))
+
+            def aff(e_):
+                return aff_of(ex(e_), lambda x_: None if isinstance(x_, (ast.BinOp, ast.Constant, ast.UnaryOp)) else sym(x_))
+            try:
+                ylo_e, yhi1 = ex(rows.slice.lower), aff(rows.slice.upper)
+                if aff(start) != aff(rows.slice.lower):
+                    raise AnalysisError('Grid.subgrid: rows are not enumerated from the first '
+                                        'copied row (outside the grammar)')
+                # target row and column slice, source column slice
+                if not (isinstance(tgt, ast.Subscript) and isinstance(tgt.value, ast.Subscript)
+                        and src(tgt.value.value) == g):
+                    return None
+                trow = aff(tgt.value.slice)
+                cs = ex(tgt.slice)
+                if isinstance(cs, ast.Call) and src(cs.func) == 'slice' and len(cs.args) == 2:
+                    ta, tb = aff(cs.args[0]), aff(cs.args[1])
+                elif isinstance(cs, ast.Slice) and cs.step is None and cs.lower is not None \
+                        and cs.upper is not None:
+                    ta, tb = aff(cs.lower), aff(cs.upper)
+                else:
+                    return None
+                v = st.value
+                if not (isinstance(v, ast.Subscript) and src(v.value) == rv
+                        and isinstance(v.slice, ast.Slice) and v.slice.step is None
+                        and v.slice.lower is not None and v.slice.upper is not None):
+                    return None
+                sa, sb = aff(v.slice.lower), aff(v.slice.upper)
+                ymin_s, xmin_s = sym(ast.parse(f'{ap}.ymin', mode='eval').body), \
+                    sym(ast.parse(f'{ap}.xmin', mode='eval').body)
+                if trow != Aff.sym('@' + yv) - ymin_s or ta != sa - xmin_s or tb != sb - xmin_s:
+                    raise AnalysisError('Grid.subgrid: the copied window is not shifted by the '
+                                        'area origin (outside the grammar)')
+            except NonAffine as e_:
+                raise AnalysisError(f'Grid.subgrid slice bound not affine: {e_}')
+            xlo = ex(v.slice.lower)
+            ylo = ylo_e
+
+            def minus1(e_):
+                e_ = ex(e_)
+                if isinstance(e_, ast.BinOp) and isinstance(e_.op, ast.Add) and \
+                        isinstance(e_.right, ast.Constant) and e_.right.value == 1:
+                    return e_.left
+                return ast.BinOp(e_, ast.Sub(), ast.Constant(1))
+            yhi, xhi = minus1(rows.slice.upper), minus1(v.slice.upper)
+            # Python slices clip at the end and wrap below zero: the box reading is exact only
+            # for bounds of the form max(.., 0) / min(..)
+            for lo_ in (ylo, xlo):
+                if not (isinstance(lo_, ast.Call) and src(lo_.func) == 'max'
+                        and any(isinstance(a_, ast.Constant) and a_.value == 0
+                                for a_ in lo_.args)):
+                    raise AnalysisError(f'Grid.subgrid: slice lower bound `{src(lo_)}` is not '
+                                        f'max(.., 0) (outside the grammar)')
+            for hi_ in (yhi, xhi):
+                if not (isinstance(hi_, ast.Call) and src(hi_.func) == 'min'):
+                    raise AnalysisError(f'Grid.subgrid: slice upper bound `{src(hi_)}` is not '
+                                        f'min(..) (outside the grammar)')
+        else:
+            return None
+        # the condition under which the copy runs
+        guard = w.expand_formula(strip_iter(st.guard), stop=[rname] if rname else [])
+        try:
+            gexpr = ast.parse(show(guard), mode='eval').body if guard != ('true',) \
+                else ast.Constant(True)
+        except SyntaxError:
+            raise AnalysisError('Grid.subgrid: copy guard outside the grammar')
+        if rname is not None:
+            class NoneTests(ast.NodeTransformer):
+                def visit_Compare(self, n):
+                    if len(n.ops) == 1 and isinstance(n.left, ast.Name) and \
+                            n.left.id == rname and isinstance(n.comparators[0], ast.Constant) \
+                            and n.comparators[0].value is None and empty is not None:
+                        if isinstance(n.ops[0], (ast.Is, ast.Eq)):
+                            return copy.deepcopy(empty)
+                        if isinstance(n.ops[0], (ast.IsNot, ast.NotEq)):
+                            return ast.UnaryOp(ast.Not(), copy.deepcopy(empty))
+                    return n
+            gexpr = NoneTests().visit(gexpr)
+            if rname in {n.id for n in ast.walk(gexpr) if isinstance(n, ast.Name)}:
+                raise AnalysisError('Grid.subgrid: the copy guard tests the overlap in a way '
+                                    'outside the grammar')
+            if empty is not None and isinstance(gexpr, ast.Constant):
+                raise AnalysisError('Grid.subgrid: an Optional overlap is iterated without a '
+                                    'None test (outside the grammar)')
+        y, x = ast.Name('y', ast.Load()), ast.Name('x', ast.Load())
+        inside = ast.BoolOp(ast.And(), [
+            gexpr,
+            ast.Compare(ylo, [ast.LtE(), ast.LtE()], [y, yhi]),
+            ast.Compare(xlo, [ast.LtE(), ast.LtE()], [x, xhi])])
+        cell = ast.Subscript(ast.Name('self', ast.Load()), ast.Tuple([y, x], ast.Load()),
+                             ast.Load())
+        elt = ast.IfExp(inside, cell, pad)
+
+        def coords(axis: str) -> ast.AST:
+            return ast.Call(ast.Attribute(ast.Name(ap, ast.Load()), f'{axis}_coordinates',
+                                          ast.Load()), [], [])
+        inner = ast.ListComp(elt, [ast.comprehension(ast.Name('x', ast.Store()), coords('x'),
+                                                     [], 0)])
+        outer = ast.ListComp(inner, [ast.comprehension(ast.Name('y', ast.Store()), coords('y'),
+                                                       [], 0)])
+        call = ast.Call(ast.Name('Grid', ast.Load()), [outer], [])
+        ast.fix_missing_locations(call)
+        return rets[-1], ast.parse(src(call), mode='eval').body
 
     def _row(self, e: ast.AST):
         """(inner variable, inner iterable, element) of a row expression: a comprehension, or
